@@ -14,13 +14,19 @@ LEVEL_TEXT = ("Bounded symbolic execution of operation HISTORIES on pools of exp
               "are symbolic, hence so are the cache contents left behind by every earlier operation (including the partial states left by a "
               "call that raised DomainError or CoordinateMissing half-way: q on a domain boundary or lacking a coordinate is just a path). The "
               "last operation is executed on the used pool and, on the same path, on a freshly built pool; z3 decides 'same outcome kind and "
-              "equal value' for ALL p, q; expressions are compared by their printed form.")
+              "equal value' for ALL p, q; expressions are compared with the library's own ==. INDUCTIVE STEP (histories of any length): the per-node "
+              "memo fields are found by diffing every node's __dict__ across evaluations (no names assumed); they are then overwritten, on every node of the "
+              "pool, with ARBITRARY content (an independent symbolic number per field, or left empty, in four solver-chosen patterns) and one operation is run: "
+              "its answer must equal the fresh pool's for all points and all memo contents. Whatever sequence of evaluations and numeric derivative queries "
+              "came before, it can only have left some content in those fields, so this covers such histories of every length; histories through the "
+              "simplifier (which also sets the reduced/failed flags, whose invariant is semantic) are covered by the bounded exploration only.")
 BOUNDS = {
-    "quick": {"histories": "length 2-4 over {at, Partial late/early, LocatedDifferential, Differential early, as_expression (forward/reverse), "
+    "quick": {"inductive_step": "4 pools x 2 targets x {at, Partial late/early, LocatedDifferential}, every memo field of every node arbitrary (4 patterns)",
+              "histories": "length 2-4 over {at, Partial late/early, LocatedDifferential, Differential early, as_expression (forward/reverse), "
               "_normalize, failing calls (DomainError / CoordinateMissing), constructor side effects, long-lived Partial/Differential objects queried "
               "repeatedly, outputs of earlier simplifications used as operands}; 5 pools sharing 1-2 sub-expression objects (incl. structurally equal "
               "twins); stratified sample", "outside": "longer histories, larger pools, more than two points"},
-    "thorough": {"histories": "all length-2 histories over the alphabet x targets, a seeded sample of length-3 histories, all long-lived-object and "
+    "thorough": {"inductive_step": "8 pools x 3 targets x 9 operations", "histories": "all length-2 histories over the alphabet x targets, a seeded sample of length-3 histories, all long-lived-object and "
                  "composed-output histories; 5 pools", "outside": "longer histories, larger pools, more than two points"},
 }
 ASSUMPTIONS = ["bound argument (DESIGN.md 6/C09): every memo field of a node is overwritten or cleared by the last operation that reaches it, so histories of "
@@ -98,6 +104,11 @@ def jobs(tier, seed):
         sel.append({"pool": "F", "hist": [["norm", t], ["fwd", t, "p"]]})
     for s in sel:
         js.append({"mode": "history", **s})
+    # inductive step: arbitrary content in every memo field of every node, then one operation
+    for pool in (POOLS + ["G", "H"] if tier == "thorough" else ["A", "B", "D", "G"]):
+        for t in (("e1", "e2", "e3") if tier == "thorough" else ("e1", "e2")):
+            for k in (FINAL if tier == "thorough" else ["at", "fwd", "rev", "early"]):
+                js.append({"mode": "anycache", "pool": pool, "op": op(k, t, "p"), "slots": 24})
     js.append({"mode": "history", "pool": "A", "hist": [["at", "e1", "q"], ["at", "e2", "p"]], "twin": "second+1"})
     js.append({"mode": "history", "pool": "B", "hist": [["fwd", "e1", "q"], ["rev", "e1", "p"]], "twin": "second+1"})
     for i, j in enumerate(js):
@@ -114,11 +125,23 @@ def prepare(spec, ctx):
         ctx.env[n] = sx.SymReal(c)
     ctx.assume = []
     sx.PARAM_NAMES.clear()
+    if spec["mode"] == "anycache":
+        for k in range(spec.get("slots", 24)):
+            c = z3.Real(f"m{k}")
+            ctx.consts[f"m{k}"] = c
+            ctx.env[f"m{k}"] = sx.SymReal(c)
+        t = z3.Int("pattern")
+        ctx.consts["pattern"] = t
+        ctx.env["pattern"] = sx.SymInt(t)
+        ctx.int_names.add("pattern")
+        ctx.assume += [t >= 0, t <= 3]
 
 
 def vcs(spec, ctx, outs):
+    if spec["mode"] == "anycache":
+        outs = outs[:3]
     i, j, eq = len(outs) - 3, len(outs) - 2, len(outs) - 1
-    name = "last-operation==same-operation-on-fresh-pool"
+    name = "last-operation==same-operation-on-fresh-pool" if spec["mode"] != "anycache" else "operation-with-arbitrary-memo-contents==fresh-pool"
     if outs[eq].get("value") is not None or outs[eq]["kind"] != "value":
         # both results are expressions: compared with the library's own ==
         o = outs[eq]
@@ -134,4 +157,6 @@ def vcs(spec, ctx, outs):
     v = common.agree_vc(name, ctx, outs, i, j, twin=bool(spec.get("twin")))
     if v is None:
         v = VC(name + ":identical", None, None, {"failed": False})
+    if spec["mode"] == "anycache" and len(ctx.outs) > 3:
+        v.info["memo_fields_found_by_diffing"] = ctx.outs[3].get("value")
     return [v]
